@@ -276,9 +276,9 @@ def run(tier, seed):
     chk.add_rule("C04.S.names_reserved", ok, sites, failing)
     ok, sites, failing = rule_slice_operands()
     chk.add_rule("C04.S.slice_operands", ok, sites, failing)
-    from ..kernels import c04_fuse, c04_scope
+    from ..kernels import c04_fuse, c04_scope, c04_api_inner
     from ..kernels.base import run_kernel
-    for k in c04_fuse.KERNELS + c04_scope.KERNELS:
+    for k in c04_fuse.KERNELS + c04_scope.KERNELS + c04_api_inner.KERNELS:
         chk.add_kernel(run_kernel(k, tier))
     chk.add_lemmas(tier)
     n = 12 if tier == "quick" else 600
